@@ -17,7 +17,7 @@ use crate::env::{run_once, TestBed};
 use crate::gen::*;
 use super::rpkitree::prefix_of;
 
-pub const PROPS: [&str; 4] = ["C03", "C04", "C05", "C06"];
+pub const PROPS: [&str; 5] = ["C02", "C03", "C04", "C05", "C06"];
 
 const TA_REPO: &str = "rsync://r1.verif.test/repo/";
 const CA_REPO: &str = "rsync://r2.verif.test/repo/";
@@ -25,6 +25,24 @@ const CA_REPO: &str = "rsync://r2.verif.test/repo/";
 fn leaf(vid: u64, f: u64) -> Vec<u8> {
     let n = ((vid - 1) * 2 + (f - 1)) as u8;
     vec![(n >> 2) & 1, (n >> 1) & 1, n & 1]
+}
+
+/// Which kind of object file `f` is in payload variant `pv`:
+/// 0: ROA, ROA; 1: ROA, ASPA; 2: router certificate, ROA.
+pub fn kind_of(pv: u64, f: u64) -> &'static str {
+    match (pv % 3, f) {
+        (1, 2) => "aspa",
+        (2, 1) => "rtr",
+        _ => "roa",
+    }
+}
+
+pub fn payload_str_k(vid: u64, f: u64, v6: bool, pv: u64) -> String {
+    match kind_of(pv, f) {
+        "aspa" => format!("AS{} => [AS{}]", 64600 + vid * 10 + f, 64700 + vid),
+        "rtr" => super::rpkitree::router_key_str(64500 + (vid * 10 + f) as u32, (vid % 2) as usize),
+        _ => payload_str(vid, f, v6),
+    }
 }
 
 pub fn payload_str(vid: u64, f: u64, v6: bool) -> String {
@@ -43,7 +61,7 @@ struct RunSpec {
 }
 
 /// Builds the world in which version `ver` of the CA is published.
-fn world_for(ver: &Value, run: &RunSpec, canonical_names: bool, stale_via_crl: bool, v6: bool) -> World {
+fn world_for(ver: &Value, run: &RunSpec, canonical_names: bool, stale_via_crl: bool, v6: bool, pv: u64) -> World {
     let mut ta = Ca::new("ca1", None, 0, &format!("{TA_REPO}ca1/"));
     ta.prefixes = vec![prefix_of(&[], v6)];
     ta.asns = vec![(64000, 65000)];
@@ -80,11 +98,12 @@ fn world_for(ver: &Value, run: &RunSpec, canonical_names: bool, stale_via_crl: b
             "missing" => Fault::Missing, "badhash" => Fault::HashMismatch, _ => Fault::None,
         };
         let p = prefix_of(&leaf(vid, f), v6);
-        ca.objects.push(Obj {
-            name: format!("e{pos}f{f}.roa"),
-            kind: ObjKind::Roa { asn: 64500 + vid as u32, prefixes: vec![(p, 3)] },
-            serial: 10 * vid + f, validity: (-12, 48), fault,
-        });
+        let (name, kind) = match kind_of(pv, f) {
+            "aspa" => (format!("e{pos}f{f}.asa"), ObjKind::Aspa { customer: 64600 + (vid * 10 + f) as u32, providers: vec![64700 + vid as u32] }),
+            "rtr" => (format!("e{pos}f{f}.cer"), ObjKind::Router { asns: vec![64500 + (vid * 10 + f) as u32], ec: (vid % 2) as usize }),
+            _ => (format!("e{pos}f{f}.roa"), ObjKind::Roa { asn: 64500 + vid as u32, prefixes: vec![(p, 3)] }),
+        };
+        ca.objects.push(Obj { name, kind, serial: 10 * vid + f, validity: (-12, 48), fault });
     }
     World {
         tals: vec![Tal { name: "tal1".into(), ca: 0, uris: vec![(format!("{TA_REPO}ta1.cer"), TaVariant::Good)] }],
@@ -102,13 +121,17 @@ fn parse_run(r: &Value) -> RunSpec {
     }
 }
 
-fn payload_set(v: &Value, v6: bool) -> BTreeSet<String> {
-    v.as_array().unwrap().iter().map(|x| payload_str(x[0].as_u64().unwrap(), x[1].as_u64().unwrap(), v6)).collect()
+fn payload_set(v: &Value, v6: bool, pv: u64) -> BTreeSet<String> {
+    v.as_array().unwrap().iter().map(|x| payload_str_k(x[0].as_u64().unwrap(), x[1].as_u64().unwrap(), v6, pv)).collect()
 }
 
-fn version_payload(vid: u64, nfiles: u64, v6: bool) -> BTreeSet<String> {
+fn version_payload(vid: u64, nfiles: u64, v6: bool, pv: u64) -> BTreeSet<String> {
     if vid == 0 { return BTreeSet::new() }
-    (1..=nfiles).map(|f| payload_str(vid, f, v6)).collect()
+    (1..=nfiles).map(|f| payload_str_k(vid, f, v6, pv)).collect()
+}
+
+fn all_payload(p: &crate::env::Payload) -> BTreeSet<String> {
+    p.origins.iter().chain(p.keys.iter()).chain(p.aspas.iter()).cloned().collect()
 }
 
 pub fn main(args: &Args) -> i32 {
@@ -157,6 +180,7 @@ pub fn main(args: &Args) -> i32 {
 fn one(rep: &mut Report, bed: &TestBed, factory: &Arc<Factory>, b: &Value, idx: usize, args: &Args) {
     let v6 = (idx as u64 + args.seed) % 2 == 1;
     let stale_via_crl = (idx as u64 / 2 + args.seed) % 2 == 1;
+    let pv = idx as u64 / 4 + args.seed;      // payload variant: which files are ROAs / ASPAs / router certificates
     bed.wipe_cache();
     let runs = b["runs"].as_array().unwrap();
     let nfiles = runs[0]["avail"].as_array().unwrap().len() as u64;
@@ -169,17 +193,19 @@ fn one(rep: &mut Report, bed: &TestBed, factory: &Arc<Factory>, b: &Value, idx: 
     for (ri, r) in runs.iter().enumerate() {
         let run = parse_run(r);
         let canonical = run.pub_id == before || run.mc != "ok" || ri == 0;
-        let world = world_for(ver(run.pub_id), &run, canonical, stale_via_crl, v6);
+        let world = world_for(ver(run.pub_id), &run, canonical, stale_via_crl, v6, pv);
         let published = world.build(factory);
         bed.publish(&published);
         bed.fail_module(CA_REPO, if run.mc == "unreachable" { Some(10) } else { None });
         let mut cfg = bed.config();
         cfg.stale = if run.reject { FilterPolicy::Reject } else { FilterPolicy::Accept };
         cfg.validation_threads = 1 + (idx % 2);
-        let ctx = |extra: Value| json!({"v1": b["v1"], "v2": b["v2"], "runs": runs[..=ri], "run_index": ri, "v6": v6,
+        cfg.enable_aspa = true;
+        cfg.enable_bgpsec = true;
+        let ctx = |extra: Value| json!({"v1": b["v1"], "v2": b["v2"], "runs": runs[..=ri], "run_index": ri, "v6": v6, "payload_variant": pv % 3,
                                         "stale_via_crl": stale_via_crl, "stored_before": before, "extra": extra});
         let online = match run_once(&cfg, true, &LocalExceptions::empty()) {
-            Ok(r) => r.payload.origins,
+            Ok(r) => all_payload(&r.payload),
             Err(e) => {
                 rep.violation("C04", "run-failed", format!("validation run failed: {e:?}"), ctx(json!(null)), json!({}));
                 return
@@ -189,21 +215,23 @@ fn one(rep: &mut Report, bed: &TestBed, factory: &Arc<Factory>, b: &Value, idx: 
         bed.fail_module(CA_REPO, None);
         let mut cfg_off = bed.config();
         cfg_off.stale = FilterPolicy::Accept;
+        cfg_off.enable_aspa = true;
+        cfg_off.enable_bgpsec = true;
         let offline = match run_once(&cfg_off, false, &LocalExceptions::empty()) {
-            Ok(r) => r.payload.origins,
+            Ok(r) => all_payload(&r.payload),
             Err(e) => {
                 rep.violation("C04", "offline-run-failed", format!("offline validation run failed: {e:?}"), ctx(json!(null)), json!({}));
                 return
             }
         };
-        let p_pub = version_payload(run.pub_id, nfiles, v6);
-        let p_before = version_payload(before, nfiles, v6);
+        let p_pub = version_payload(run.pub_id, nfiles, v6, pv);
+        let p_before = version_payload(before, nfiles, v6, pv);
         let after: u64 = if offline.is_empty() { 0 }
-            else if offline == version_payload(1, nfiles, v6) { 1 }
-            else if offline == version_payload(2, nfiles, v6) { 2 }
+            else if offline == version_payload(1, nfiles, v6, pv) { 1 }
+            else if offline == version_payload(2, nfiles, v6, pv) { 2 }
             else { 99 };
         let exp = &r["exp"];
-        let exp_committed = payload_set(&exp["committed"], v6);
+        let exp_committed = payload_set(&exp["committed"], v6, pv);
         let exp_stored = exp["stored"].as_u64().unwrap();
         let observed = json!({"committed": online, "stored_readback": offline, "stored_after": after,
                               "expected_committed": exp_committed, "expected_stored": exp_stored});
@@ -245,6 +273,20 @@ fn one(rep: &mut Report, bed: &TestBed, factory: &Arc<Factory>, b: &Value, idx: 
                 rep.violation("C04", "stored-not-usable",
                     format!("after a failed fetch the stored version {before} was not used: served {:?}", online),
                     ctx(json!(null)), observed.clone());
+            }
+        }
+        // ---- C02 (history form): a fault in one object of a newer version must not take the
+        // still valid stored siblings away
+        if !fetch_complete && before != 0 && after == before {
+            let (_, _, bstale) = ver_num(before);
+            if !(bstale && run.reject) {
+                rep.eval("C02");
+                rep.nontrivial("C02", key.clone());
+                if !p_before.is_subset(&online) {
+                    rep.violation("C02", &format!("stored-siblings-dropped/{}", if run.mc != "ok" { run.mc.as_str() } else { "file" }),
+                        format!("the fetch of a newer version failed and the valid stored version {before} was not served: {:?}", online),
+                        ctx(json!(null)), observed.clone());
+                }
             }
         }
         // ---- C05
